@@ -302,6 +302,20 @@ func verifProp_C15_Decode() func(*rapid.T) {
 		}
 		if !bytes.Equal(got.Bytes(), sm2ref.Encode(want)) || !bytes.Equal(got.Bytes(), b) {
 			vt.Fail(t, rec, "C15:decode:roundtrip", "decoded point re-encodes differently\n in %x\nout %x", b, got.Bytes())
+			return
+		}
+		// the decoded value must BE that point, not merely print like it: it satisfies the curve equation and behaves in arithmetic
+		if !c15OnCurveProjective(got) {
+			vt.Fail(t, rec, "C15:decode:off-curve", "SetBytes(%x) into a used receiver left coordinates that do not satisfy the curve equation: %x", b, c15Raw(got))
+			return
+		}
+		g := NewSM2Generator()
+		if sum := NewSM2Point().Add(got, g).Bytes(); !bytes.Equal(sum, sm2ref.Encode(sm2ref.Add(want, sm2ref.G))) {
+			vt.Fail(t, rec, "C15:decode:arith", "decoded point + G is wrong (decoded from %x into a receiver that held another point)\n got %x\nwant %x", b, sum, sm2ref.Encode(sm2ref.Add(want, sm2ref.G)))
+			return
+		}
+		if dbl := NewSM2Point().Double(got).Bytes(); !bytes.Equal(dbl, sm2ref.Encode(sm2ref.Double(want))) {
+			vt.Fail(t, rec, "C15:decode:arith", "2 x decoded point is wrong (decoded from %x)", b)
 		}
 	}
 }
